@@ -99,6 +99,16 @@ Definition cf_m3 : cfg :=
 Example test_two_panics_reraised : explore_ok cf_m3 false is_panic fuel = true.
 Proof. vm_compute. reflexivity. Qed.
 
+(* e753473: a panic after the reducer's value was handed over is re-raised all the same: the reducer writes then
+   panics; a mapper and the generator panic after a stop-early reducer wrote (every final state: OPanic) *)
+Definition cf_m4 : cfg := mkcfg 1 [0] None (fun _ => [AWrite 1]) (Some 0) [RWrite 7; RPanic 9] false.
+Example test_write_then_panic_reraised : explore_ok cf_m4 false is_panic fuel = true.
+Proof. vm_compute. reflexivity. Qed.
+Definition cf_m5 : cfg :=
+  mkcfg 2 [0; 1] (Some 8) (fun i => match i with 0 => [AWrite 1; APanic 4] | _ => [AWrite 1] end) (Some 0) [RWrite 7] false.
+Example test_late_mapper_generator_panic_reraised : explore_ok cf_m5 false is_panic fuel = true.
+Proof. vm_compute. reflexivity. Qed.
+
 (* summary *)
 Example c07_no_stuck_test_small :
   explore_ok cf_t3 false is_err fuel = true /\ explore_ok cf_t5 true (fun _ => true) fuel = true /\
